@@ -41,8 +41,56 @@ def field_offset(K, path):
     raise AssertionError("field not found")
 
 
+class Timeout(Exception):
+    pass
+
+
+def _alarm(*a):
+    raise Timeout()
+
+
+def graphs():
+    """every version-2 element graph over four names - one of them spelled like the root marker "sgx_root" - loads with
+    an error or yields a certificate whose validation terminates with a verdict for every target (C16)"""
+    import itertools
+    import signal
+    from admin.certificate import HSMCertificate
+    signal.signal(signal.SIGALRM, _alarm)
+    names = ["quote", "akey", "ca", "sgx_root"]
+    failures, n = [], 0
+    for r in range(1, 5):
+        for subset in itertools.combinations(names, r):
+            choices = list(subset) + ["sgx_root", "nobody"]
+            for assignment in itertools.product(choices, repeat=r):
+                n += 1
+                elems = [{"name": m, "type": "sgx_quote", "message": "aa", "custom_data": "bb", "signature": "cc", "signed_by": p}
+                         for m, p in zip(subset, assignment)]
+                doc = {"version": 2, "targets": list(subset), "elements": elems}
+                signal.alarm(2)
+                try:
+                    try:
+                        c = HSMCertificate.VERSION_MAPPING[2](json.loads(json.dumps(doc)))
+                    except ValueError:
+                        continue
+                    res = c.validate_and_get_values(object())
+                    if set(res) != set(subset):
+                        failures.append(dict(prop="C16", what="version-2 certificate loaded but not every target got a verdict: %r" % (res,), certificate=doc))
+                except Timeout:
+                    failures.append(dict(prop="C16", what="version-2 certificate: no verdict within 2 s (non-termination)", certificate=doc))
+                except Exception as e:      # noqa
+                    failures.append(dict(prop="C16", what="version-2 certificate: unexpected %s: %s" % (type(e).__name__, e), certificate=doc))
+                finally:
+                    signal.alarm(0)
+                if len(failures) >= 2:
+                    return n, failures
+    return n, failures
+
+
 def run():
     failures, cases = [], 0
+    ng, gf = graphs()
+    failures.extend(gf)
+    cases += ng
     certifier = sk("certifier")
     att = sk("attestation-key")
     rb_off = field_offset(SgxReportBody, ["report_data", "field"])
@@ -86,7 +134,8 @@ def run():
         if v1 != v2 or e1._message != e2._message:
             failures.append(dict(prop="C16", what="sgx_quote element: verdict %r before saving, %r after" % (v1, v2), element=m))
     return dict(stats=dict(cases=cases), failures=failures[:3],
-                bound="attestation-key and quote elements, structure size + 0..3 signed trailing bytes, 3 key encodings, genuine / corrupted signature")
+                bound="attestation-key and quote elements, structure size + 0..3 signed trailing bytes, 3 key encodings, genuine / corrupted signature; "
+                      "all version-2 element graphs over 4 names (one spelled like the root marker), each signed_by in subset + root + dangling")
 
 
 if __name__ == "__main__":
